@@ -99,6 +99,26 @@ def role(vals, out):
 def build(run):
     run.outside += ["that each rule's replacement mentions each child (YAML rules evaluated by the sxd_xpath interpreter)",
                     "7 languages x 2 styles x 3 verbosities of rule data"]
+    # ---- Z-C04-d: with TTS=None pauses are the characters , and ; -- merging them must not reach into the words around them ---------------
+    import rxsmt, tables
+    from smt_run import smt_str
+    tts = slicer.Source.get("src/tts.rs")
+    mp = tts.find("impl TTS", "fn merge_pauses_none")
+    pat, spx = tables.lazy_regex(tts, "MULTIPLE_PAUSES", within=mp)
+    run.uses(mp, spx)
+    run.bound("Z-C04-d", "the regex of merge_pauses_none (%r), matches of unbounded length" % pat)
+
+    def w_pause(mdl, pat=pat):
+        t = "2" + mdl["s"] + "5"
+        caps = rxsmt.captures_real(pat, t)
+        if caps and caps[0] is not None and any(ch not in ",;" for ch in caps[0]):
+            out = rxsmt.replace_all_real(pat, ";", t)
+            return ("pause-merge-reaches-into-text", "merge_pauses_none: %r matches %r inside %r, which becomes %r: characters that are not pause marks (a blank that separates tokens, and with it the decimal comma of a following literal such as ',5') are merged away" % (pat, caps[0], t, out), {"text": t, "result": out})
+        return None
+    run.smt("Z-C04-d.pause_merge_only_adjacent_marks", "(declare-const s String)\n(assert (str.in_re s %s))\n(assert (not (str.in_re s (re.+ (re.union (str.to_re \",\") (str.to_re \";\"))))))" % rxsmt.core_lang(pat),
+            get=("s",), witness=w_pause, vacuity="(declare-const s String)\n(assert (str.in_re s %s))" % rxsmt.core_lang(pat),
+            claim="every match of the pause-merging regex consists of , and ; only (adjacent pause marks): no blank, digit or letter can be merged away")
+
     sp = slicer.Source.get("src/speech.rs")
     f = sp.find("fn replace_array_string", "fn is_repetitive")
     consts = [sp.find("const OPTIONAL_INDICATOR"), sp.find("const OPTIONAL_INDICATOR_LEN")]
